@@ -4,6 +4,8 @@
 # Author : Peitian Pan
 # Date   : June 9, 2019
 """Provide the yosys-compatible SystemVerilog L1 behavioral translator."""
+import re
+
 
 from pymtl3.datatypes import Bits, is_bitstruct_inst
 from pymtl3.passes.backends.verilog.errors import VerilogTranslationError
@@ -218,6 +220,14 @@ class YosysBehavioralRTLIRToVVisitorL1( BehavioralRTLIRToVVisitorL1 ):
     Type = node.value.Type
 
     s.signal_expr_prologue( node )
+
+    if not hasattr( node.value, 'sexpr' ):
+      # The indexed value is not a signal expression (a temporary variable, a
+      # constant, the result of a cast ...): keep it as the base of the select
+      if not re.fullmatch( r'[A-Za-z_][A-Za-z0-9_$]*', str(value) ):
+        raise VerilogTranslationError( s.blk, node,
+          f"cannot select a bit of the expression {value}: assign it to a temporary variable first!" )
+      node.sexpr['s_attr'] = value
 
     # Unpacked index
     if isinstance( Type, rt.Array ):
